@@ -1199,6 +1199,63 @@ pub fn t18(prop: &str, seed: u64) -> RunDesc {
     d
 }
 
+/// T19: one unpin whose collection keeps itself busy for many rounds (three staggered chains of
+/// objects whose destructors release the next link through a plain `Rc` field and flush), then an
+/// ordinary critical section on the same thread with a Snapshot in it, flushing in lock step
+/// with another thread's collection rounds. Whatever state the long collection left behind, the
+/// later critical section protects what it loaded until its guard is dropped (C16, C02).
+pub fn t19(prop: &str, seed: u64) -> RunDesc {
+    let mut rng = Rng::new(seed);
+    let mut d = base(&mut rng, prop, "dir-t19", seed, 2);
+    d.cfg.stall = None;
+    d.cfg.dtor_api = 4; // every payload destructor releases its plain-Rc link, then pins, flushes and unpins
+    d.cfg.manual_interval = 64;
+    d.cfg.max_objects = 64;
+    d.cfg.strategy = 0;
+    d.cfg.p_switch = 0.05;
+    let links = 12 + rng.below(20) as u32;
+    // X, the object the later critical section looks at
+    let mut v = vec![o(K::New, 5, NONE_SLOT, 60000, 0), o(K::Pin, 0, 0, 0, 0), o(K::Store, ROOT0, 5, 0, 0), o(K::Unpin, 0, 0, 0, 0)];
+    // three chains, built tail first in slots 0/1 (the link is the plain Rc field `extra`), the
+    // heads parked in slots 2, 3, 4
+    for chain in 0..3u32 {
+        v.push(o(K::New, 0, NONE_SLOT, 1000 * (chain + 1) + links, 0));
+        let mut cur = 0u32;
+        for i in (1..links).rev() {
+            let nxt = 1 - cur;
+            v.push(o(K::New, nxt, cur, 1000 * (chain + 1) + i, 0));
+            v.push(o(K::DropRc, cur, 0, 0, 0));
+            cur = nxt;
+        }
+        v.push(o(K::Clone, cur, 2 + chain, 0, 0));
+        v.push(o(K::DropRc, cur, 0, 0, 0));
+    }
+    // release the heads one epoch apart, then one more round: its unpin runs the long collection
+    for chain in 0..3u32 {
+        v.extend([o(K::Pin, 0, 0, 0, 0), o(K::DropRc, 2 + chain, 0, 0, 0), o(K::Flush, 0, 0, 0, 0), o(K::Unpin, 0, 0, 0, 0)]);
+    }
+    v.extend(rounds(4 + rng.below(3) as usize));
+    // the ordinary critical section
+    let steps = 5 + rng.below(4) as u32;
+    v.extend([o(K::Pin, 0, 0, 0, 0), o(K::Load, ROOT0, 0, 0, 0), o(K::DerefSnap, 0, 0, 0, 0), o(K::Signal, 1, 0, 0, 0)]);
+    for i in 0..steps {
+        v.extend([o(K::Await, 21 + 2 * i, 0, 0, 0), o(K::Flush, 0, 0, 0, 0), o(K::Signal, 22 + 2 * i, 0, 0, 0)]);
+    }
+    v.extend([o(K::Await, 2, 0, 0, 0), o(K::DerefSnap, 0, 0, 0, 0), o(K::Unpin, 0, 0, 0, 0)]);
+    d.threads.push(thread(1, "long-collection-then-reader", v));
+    let mut w = vec![o(K::Await, 1, 0, 0, 0), o(K::Pin, 0, 0, 0, 0), o(K::Store, ROOT0, NONE_SLOT, 0, 0), o(K::Flush, 0, 0, 0, 0), o(K::Unpin, 0, 0, 0, 0)];
+    for i in 0..steps {
+        w.extend(rounds(1));
+        w.extend([o(K::Signal, 21 + 2 * i, 0, 0, 0), o(K::Await, 22 + 2 * i, 0, 0, 0)]);
+    }
+    w.extend(rounds(2));
+    w.push(o(K::Signal, 2, 0, 0, 0));
+    d.threads.push(thread(1, "unlink-and-collect", w));
+    d.cfg.step_cap = 1_500_000;
+    d.params = J::obj().set("template", "T19 a self-sustaining collection, then an ordinary critical section on the same thread").set("links_per_chain", links).set("lock_steps", steps);
+    d
+}
+
 /// T5: clock wrap — no collection of the interesting objects while stamps age past 16 / 32
 /// epochs, then the T2 choreography.
 pub fn t5(prop: &str, seed: u64) -> RunDesc {
